@@ -58,6 +58,18 @@ CHECKS["C17"] = {
     "text": U + " of RedialPacketConn with 1-3 scripted carriers x failure scripts {none, read, write, both, late write} x dial end {error, block} x close instants; oracle: no error before Close/dial failure, at most one carrier active, every carrier closed, no goroutine of the package alive after Close, user calls unblocked, packets unmodified and in order despite buffer scribbling.",
     "design_ref": "§3 C17", "note": SCHED_NOTE,
 }
+CHECKS["C07"] = {
+    "script": "c07.py", "category": "exploration", "engine": "enum",
+    "technique": "bounded-exhaustive enumeration of address spellings (filtered by Go's own parsers) x delimiter contexts x joiners x write splits on the real scrubber, with a parse-based oracle",
+    "text": "3,500 (quick) / 16,186 (thorough) spellings Go accepts or prints x 33-65 left x 38-69 right contexts; ordered pairs and triples x 7 joiners; every split of two/three-line inputs into <=3 Write calls through a real LogScrubber (split invariance, whole lines only); event String() methods. Oracle: no maximal [0-9A-Fa-f:.] run of the output parses to an injected address.",
+    "design_ref": "§3 C07", "note": ENUM_NOTE + " Concurrent writers are serialised by LogScrubber's mutex (one Write = one critical section); not explored separately.",
+}
+CHECKS["C10"] = {
+    "script": "c10.py", "category": "exploration", "engine": "enum",
+    "technique": "bounded-exhaustive enumeration of payload sizes x write/read chunkings (deviation-bounded scripts) x whitespace rewritings x markup insertions x token strings on the real AMP armor codec",
+    "text": "Payload lengths on every chunk/element boundary up to 120 kB x contents; encoder write scripts and decoder read scripts with <=2 deviations; every separator rewritten to each ASCII whitespace / doubled / CRLF; 4 markups at every outside-pre offset; every truncation; all token strings <=5 (<=6 thorough) over 16 tokens; endless inputs with bounded-buffering measurement and 60 s watchdog re-run 3x.",
+    "design_ref": "§3 C10", "note": ENUM_NOTE,
+}
 CHECKS["C08"] = {
     "script": "c08.py", "category": "exploration", "engine": "enum",
     "technique": "bounded-exhaustive enumeration of SDP documents from a grammar on the real stripping code against an independent net/netip classifier",
